@@ -41,7 +41,7 @@ ANCHORS = [
     ('pjrpc/client/retry.py', 'retry'), ('pjrpc/client/retry.py', 'retry_async'),
 ]
 FLOORS = {'*': {'pair:dispatch-text': 3000, 'pair:dispatch-plain-vs-coroutine': 3000, 'pair:middleware': 500, 'pair:retry': 500,
-                'pair:notation': 300, 'pair:match': 300, 'pair:notification-body': 150, 'pair:batch-object-reused': 30, 'pair:call-answered-with-an-odd-body': 100, 'retry:with-tracers': 200, 'retry:retried': 200, 'pair:trace': 300,
+                'pair:notation': 300, 'pair:match': 300, 'pair:notification-body': 150, 'pair:batch-object-reused': 30, 'pair:call-answered-with-an-odd-body': 100, 'pair:httpx-backends': 200, 'retry:with-tracers': 200, 'retry:retried': 200, 'pair:trace': 300,
                 'middleware:failing-with-handlers': 100}}
 
 
@@ -349,6 +349,71 @@ def run_batch_reuse(ctx, program, via_proxy, fail_first):
                                        'observation': obs[False]})
 
 
+RESPONSE_TYPES = ['application/json', 'application/json; charset=utf-8', 'Application/JSON', 'APPLICATION/JSON; charset=UTF-8',
+                  'application/json ; charset=utf-8', 'Application/Json-Rpc', 'application/json-rpc', 'application/jsonrequest',
+                  'text/plain', 'text/html; charset=utf-8', '', None, 'application/problem+json', ' application/json']
+
+
+def run_backend_pair(ctx, content_type, status, body_kind, request_kind):
+    """the library's own httpx backends (sync Client / AsyncClient) against one scripted HTTP peer: what the answer's
+    status, media type and body make of a call is the same on both halves"""
+    try:
+        import httpx
+        from pjrpc.client.backend import httpx as backend
+    except Exception as e:
+        ctx.skip(f'backend-not-importable:{type(e).__name__}')
+        return
+
+    def handler(request):
+        req = json.loads(request.content.decode() or 'null')
+        if body_kind == 'empty':
+            content = b''
+        elif body_kind == 'garbage':
+            content = b'<html>oops</html>'
+        elif isinstance(req, list):
+            content = json.dumps([{'jsonrpc': '2.0', 'id': r['id'], 'result': 'r'} for r in req if 'id' in r]).encode()
+        elif body_kind == 'error':
+            content = json.dumps({'jsonrpc': '2.0', 'id': req.get('id'), 'error': {'code': 7, 'message': 'm'}}).encode()
+        else:
+            content = json.dumps({'jsonrpc': '2.0', 'id': req.get('id'), 'result': 'r'}).encode()
+        headers = {} if content_type is None else {'Content-Type': content_type}
+        return httpx.Response(status, content=content, headers=headers)
+
+    obs = {}
+    for is_async in (False, True):
+        log = []
+        tracers = [c19.Rec(0, log)]
+        if is_async:
+            inner = httpx.AsyncClient(transport=httpx.MockTransport(handler))
+            client = backend.AsyncClient('http://peer/rpc', client=inner, tracers=tracers)
+        else:
+            inner = httpx.Client(transport=httpx.MockTransport(handler))
+            client = backend.Client('http://peer/rpc', client=inner, tracers=tracers)
+        if request_kind == 'batch':
+            st, out = clientside.outcome_of(lambda: client.batch.add('a', 1).add('b', 2).call(), is_async)
+        elif request_kind == 'notify':
+            st, out = clientside.outcome_of(lambda: client.notify('m', 1), is_async)
+        else:
+            st, out = clientside.outcome_of(lambda: client.call('m', 1), is_async)
+        obs[is_async] = {'outcome': norm_out(st, out) if st == 'exc' else ['ret', repr(out)],
+                         'tracer-events': [(e[0], e[1], type(e[4]).__name__) for e in log]}
+        try:
+            r = inner.aclose() if is_async else inner.close()
+            if is_async:
+                world.run(r)
+        except Exception:
+            pass
+    ctx.hit('pair:httpx-backends')
+    cls = (content_type, status, body_kind, request_kind)
+    for aspect in ('outcome', 'tracer-events'):
+        a, b = obs[False][aspect], obs[True][aspect]
+        if a != b:
+            ctx.violation(f'client-halves-differ:{aspect}:httpx-backends', 'backend-pair', cls, response_content_type=content_type,
+                          status=status, body=body_kind, request=request_kind, sync=a, asynchronous=b)
+            return
+    ctx.ok('backend-pair', cls, sample={'content_type': content_type, 'status': status, 'body': body_kind, 'observation': obs[False]})
+
+
 BIG = '1' + '0' * 5000
 CALL_BODIES = [
     '{"jsonrpc": "2.0", "id": 5, "result": %s}' % BIG, '{"jsonrpc": "2.0", "id": 5, "result": [1, {"k": -%s}]}' % BIG,
@@ -479,6 +544,10 @@ def gen(ctx):
         for via_proxy in (False, True):
             for fail_first in (False, True):
                 yield 'batch-reuse', dict(program=program, via_proxy=via_proxy, fail_first=fail_first)
+    for ct in RESPONSE_TYPES:
+        for status, body_kind in ((200, 'result'), (200, 'error'), (200, 'empty'), (200, 'garbage'), (500, 'result'), (404, 'garbage')):
+            for rk in ('call', 'batch', 'notify'):
+                yield 'backend-pair', dict(content_type=ct, status=status, body_kind=body_kind, request_kind=rk)
     for body in CALL_BODIES:
         for strict in (True, False):
             for kind in ('send', 'batch'):
@@ -517,4 +586,4 @@ def gen(ctx):
 
 KINDS = {'text': run_text, 'mw': run_mw, 'retry': run_retry, 'notation': run_notation, 'match': run_match, 'trace': run_trace,
          'notify-body': run_notify_body, 'batch-reuse': run_batch_reuse,
-         'call-body': run_call_body}
+         'call-body': run_call_body, 'backend-pair': run_backend_pair}
